@@ -92,6 +92,10 @@ class Injector:
         self.events = []
         self.roles = {}
         self.injected = 0
+        self.n_solves = 0
+        self.solve_target = None    # (n, kind): the n-th underlying solve of the run fails once
+        self.solve_done = False
+        self.solve_hit_fit = None
 
     def install(self, p):
         harness.client_mod()
@@ -158,6 +162,26 @@ class Injector:
                 ev["outcome"] = f"raised:{type(e).__name__}:{str(e)[:80]}"
                 raise
 
+        # faults BELOW fit(): the n-th underlying solve of the run fails once (a fit that solves several quantiles in
+        # one call can fail after it has already stored part of its result)
+        def make_solve(orig_solve):
+            def solve(self_, *args, **kwargs):
+                if inj.fit_index == 0:
+                    return orig_solve(self_, *args, **kwargs)
+                inj.n_solves += 1
+                if inj.solve_target is not None and inj.n_solves == inj.solve_target[0] and not inj.solve_done:
+                    inj.solve_done = True
+                    inj.solve_hit_fit = inj.fit_index
+                    if inj.solve_target[1] == "solver_error":
+                        raise cvxpy.error.SolverError("injected by verif below fit()")
+                    fn, mod = inaccuracy_warning_origin()
+                    warnings.warn_explicit(INACCURATE_MSG, UserWarning, fn, 1, module=mod, registry={})
+                return orig_solve(self_, *args, **kwargs)
+            return solve
+
+        p.set(QuantileRegressionSolver, "_fit", make_solve(QuantileRegressionSolver._fit))
+        p.set(QuantileRegressionSolver, "_fit_with_regularization",
+              make_solve(QuantileRegressionSolver._fit_with_regularization))
         p.set(ConformalElectionModel, "fit_model", fit_model)
         p.set(QuantileRegressionSolver, "fit", fit)
 
@@ -235,6 +259,7 @@ def run_case(spec, inputs=None):
             out["inconclusive"] = f"fault-free run raised {harness.exc_info(exc0)}"
             return out
         K = inj.n_fits
+        base_solves = inj.n_solves
         base_events = {}
         for e_ in inj.events:
             base_events.setdefault(e_["fit"], []).append({k_: v_ for k_, v_ in e_.items() if k_ not in ("solver", "outcome")})
@@ -312,6 +337,42 @@ def run_case(spec, inputs=None):
                 else:
                     out["counters"]["tables_identical"] = out["counters"].get("tables_identical", 0) + (ties == 0)
                 sigs.append([call["pi_method"], role, kind, bool(call["model_parameters"].get("lambda_")),
+                             len(call["estimands"]), len(call["prediction_intervals"])])
+        # every position of the failing SOLVE (below fit()), lambda_=0 runs compared exactly -------------------------
+        if not spec.get("only"):
+            S = base_solves
+            for n_ in range(1, S + 1):
+                kind = "solver_error" if (n_ + spec["i"]) % 2 else "inaccurate_warning"
+                inj.n_fits, inj.events, inj.target, inj.injected = 0, [], None, 0
+                inj.n_solves, inj.solve_target, inj.solve_done, inj.solve_hit_fit = 0, (n_, kind), False, None
+                res, exc = _run(el, feed, call)
+                inj.solve_target = None
+                out["counters"]["solve_level_faults"] = out["counters"].get("solve_level_faults", 0) + 1
+                if not inj.solve_done:
+                    out["inconclusive"] = f"solve-level fault {n_} of {S} was never reached"
+                    continue
+                role = inj.roles.get(inj.solve_hit_fit, "?")
+                if exc is not None:
+                    info = harness.exc_info(exc)
+                    out["violations"].append(dict(key=f"C20/run-fails-after-failed-solve/{kind}/{info['type']}",
+                                                  msg=f"{call['pi_method']}/{role}: solve #{n_} of {S} failed ({kind}): "
+                                                      f"run raised {info['type']}: {info['msg']}",
+                                                  witness=dict(solve=n_, kind=kind, exc=info)))
+                    continue
+                evs = [e_ for e_ in inj.events if e_["fit"] == inj.solve_hit_fit]
+                if len(evs) < 2 or evs[-1]["normalize_weights"] is not False:
+                    out["violations"].append(dict(key="C20/no-retry-observed/solve-level",
+                                                  msg=f"{call['pi_method']}/{role}: solve #{n_} failed ({kind}) but the "
+                                                      f"fit was not re-run without weight normalisation: {evs}",
+                                                  witness=dict(solve=n_, kind=kind)))
+                    continue
+                eq, ties, detail = tables_equal(res0, res)
+                if not eq:
+                    lam = "lambda>0" if call["model_parameters"].get("lambda_") else "lambda=0"
+                    out["violations"].append(dict(key=f"C20/tables-differ-from-fault-free-run/{lam}",
+                                                  msg=f"{call['pi_method']}/{role}: solve #{n_} of {S} failed ({kind}) below "
+                                                      f"fit(): {detail}", witness=dict(solve=n_, kind=kind)))
+                sigs.append([call["pi_method"], role, "solve-level:" + kind, bool(call["model_parameters"].get("lambda_")),
                              len(call["estimands"]), len(call["prediction_intervals"])])
         # two failing solves in one run (first and last fit, and two random positions) ------------------------------
         if K >= 2 and not spec.get("only"):
